@@ -2,6 +2,7 @@
    Statements quantify over EVERY request reader, response writer and handler (Section variables),
    every connection state and every number of loop iterations. *)
 From SV Require Import Base.Bytes Base.IO Model.Conn Spec.ConnSpec Proofs.ConnP Model.Server Proofs.ServerP.
+From SV Require Import Model.Response Model.ConnInst Proofs.ConnInstP.
 
 Section C04.
 Variable payload : Type.
@@ -89,7 +90,26 @@ Example c04_nonvacuous :
   length (oo_log _ _ o) = 1%nat /\ c_wire (oo_conn _ _ o) = [413].
 Proof. exact d5_fixed. Qed.
 
+(* C04.6  The concrete instance (head parser of src/head.rs + framing of src/request.rs + response
+   writer of src/response.rs) meets the hypotheses of the theorems above: Response::new(100) has
+   status 100; the request reader never panics / never runs out of fuel and keeps the buffer within
+   8 KiB; every successfully read request consumed at least four bytes (so the loop terminates). *)
+Theorem c04_instance_continue_code : r_code resp_continue_inst = 100.
+Proof. exact continue_code_inst. Qed.
+Theorem c04_instance_reader_total :
+  forall url_parse i, buf_ok i ->
+    fst (read_req_inst url_parse i) <> inl ModelPanic /\ fst (read_req_inst url_parse i) <> inl ModelOutOfFuel /\
+    buf_ok (snd (read_req_inst url_parse i)).
+Proof. exact read_req_inst_total. Qed.
+Theorem c04_instance_reader_progress :
+  forall url_parse i x i', buf_ok i ->
+    read_req_inst url_parse i = (inr x, i') -> (length (cin_avail i') + 4 <= length (cin_avail i))%nat.
+Proof. exact read_req_inst_progress. Qed.
+
 Print Assumptions c04_handler_runs.
+Print Assumptions c04_instance_continue_code.
+Print Assumptions c04_instance_reader_total.
+Print Assumptions c04_instance_reader_progress.
 Print Assumptions c04_answer_is_sent.
 Print Assumptions c04_drop_sends_nothing.
 Print Assumptions c04_error_status_closes.
